@@ -166,6 +166,8 @@ class MessageManager(ClientLike):
         self.listen_socket.bind((ip_address, port))
         self.listen_socket.listen(socket.SOMAXCONN)
         self.modules: Dict[socket.socket, Module] = {}
+        self._closed_pending: List[Module] = []
+        self._announcing_closed = False
         self.logger_modules: Set[Module] = set()
         self.next_dynamic_mod_id_offset = 0
 
@@ -375,9 +377,21 @@ class MessageManager(ClientLike):
 
         # Drop from our module mapping
         module.close()
-
-        self.send_client_close(module)
         del self.modules[module.conn]
+
+        # Announcing a departure can uncover further dead subscribers, whose
+        # removal lands here again: publish the notices one after the other
+        # instead of nesting them (hundreds of clients failing at once would
+        # otherwise exhaust the interpreter's recursion limit).
+        self._closed_pending.append(module)
+        if self._announcing_closed:
+            return
+        self._announcing_closed = True
+        try:
+            while self._closed_pending:
+                self.send_client_close(self._closed_pending.pop(0))
+        finally:
+            self._announcing_closed = False
 
     def disconnect_module(self, src_module: Module):
         """Disconnect module
